@@ -214,6 +214,7 @@ def entry_block(kind, length, ctx, pos, salt):
 # ----------------------------------------------------------------------------- document keys
 W_LENGTHS = (0, 1, 9, 20, 33, 45, 77, 100, 150, 236, 330)
 CHUNK = 48
+SOLO_CAP = 12         # per shard and (position, kind): single-entry re-runs to minimise a counter-example
 
 
 def doc_entries(key, seed, seam, stats=None):
@@ -302,9 +303,11 @@ def _reg_tokens(reg, mode):
     return ((prefix + ':' if prefix else '') + name).split(), M.flat_tokens(d, mode)
 
 
-def check_asm(ents, cfg, res):
+def check_asm(ents, cfg, res, counters=None):
     """-> list of Prob."""
     probs = []
+    if counters is None:
+        counters = {}
     if res.rc:
         return [Prob(None, 'tool', 'crash', 'skool2asm failed: {} {}'.format(res.exc, res.err[-300:]))]
     W = cfg['line_width']
@@ -349,6 +352,9 @@ def check_asm(ents, cfg, res):
             ok = (n, ln.raw) in warned_lines
         if not ok:
             probs.append(Prob(ei, pos, 'overlong-no-warning', 'line of {} characters (width {}) and no warning on stderr: {!r}'.format(n, W, ln.raw)))
+        else:
+            k = 'asm_overlong_table_warned' if table else ('asm_overlong_word_warned' if ntext <= 1 else 'asm_overlong_minwidth_warned')
+            counters[k] = counters.get(k, 0) + 1
 
     def check_regs(ei, e, blk):
         # a register's first line starts with its name field; the field is fixed text, not part of the description
@@ -480,8 +486,10 @@ def _plain(tokens):
     return [t for t in tokens if isinstance(t, str)]
 
 
-def check_ctl(ents, cfg, res):
+def check_ctl(ents, cfg, res, counters=None):
     probs = []
+    if counters is None:
+        counters = {}
     if res.rc:
         return [Prob(None, 'tool', 'crash', 'sna2skool failed: {} {}'.format(res.exc, res.err[-300:]))]
     W = cfg['line_width']
@@ -553,10 +561,13 @@ def check_ctl(ents, cfg, res):
                     for x in [M.reg_field(*r[:3]).split() for r in e.regs]:
                         if toks[:len(x)] == x:
                             ntext = len(toks) - len(x)
+                if ntext <= 1:
+                    counters['ctl_overlong_word'] = counters.get('ctl_overlong_word', 0) + 1
                 if ntext > 1:
                     probs.append(Prob(ei, 'comment', 'overlong', 'line of {} characters (width {}) without an unbreakable word: {!r}'.format(n, W, line)))
             else:
                 op, sep, com = line[6:].partition(';')
+                counters['ctl_overlong_instruction_line'] = counters.get('ctl_overlong_instruction_line', 0) + 1
                 if len(com.split()) > 1 and n > limit2:
                     probs.append(Prob(ei, 'instruction', 'overlong', 'line of {} characters (width {}) without an unbreakable word: {!r}'.format(n, W, line)))
     return probs
@@ -570,15 +581,24 @@ def _item_short(x):
     return ('group', x[1], _short(x[2]))
 
 
-def check_html(ents, pages):
+def check_html(ents, pages, counters=None):
     """pages: dict address -> html text or None."""
     probs = []
+    if counters is None:
+        counters = {}
     for ei, e in enumerate(ents):
         html = pages.get(e.addr)
         if html is None:
             probs.append(Prob(ei, 'page', 'missing', 'no entry page asm/{}.html'.format(e.addr)))
             continue
         got = M.read_page(html)
+        for x in got:
+            if x[0] == 'instr' and x[4] > 1:
+                counters['html_rowspan_gt1'] = counters.get('html_rowspan_gt1', 0) + 1
+            if x[0] == 'instr' and x[3] and M.TD in x[3]:
+                counters['html_table_in_comment_cell'] = counters.get('html_table_in_comment_cell', 0) + 1
+            if x[0] == 'desc' and M.LI in x[1]:
+                counters['html_list_in_paragraph'] = counters.get('html_list_in_paragraph', 0) + 1
         want = [('title', ['{}:'.format(e.addr)] + M.flat_tokens(e.title, 'html'))]
         want += [('desc', M.flat_tokens(p, 'html')) for p in e.desc]
         mode = 'input'
@@ -623,13 +643,13 @@ def run_doc(seam, key, cfg, seed, stats=None):
     if seam == 'asm':
         path = tools.write_file('c18.skool', M.render_skool(ents), d)
         res = tools.run_tool('skool2asm', asm_args(cfg, path))
-        probs = check_asm(ents, cfg, res)
+        probs = check_asm(ents, cfg, res, stats.counters if stats is not None else None)
     elif seam == 'ctl':
         ctl, data = M.render_ctl(ents)
         cpath = tools.write_file('c18.ctl', ctl, d)
         bpath = tools.write_file('c18.bin', data, d)
         res = tools.run_tool('sna2skool', ctl_args(cfg, cpath, bpath, ents[0].addr))
-        probs = check_ctl(ents, cfg, res)
+        probs = check_ctl(ents, cfg, res, stats.counters if stats is not None else None)
     else:
         path = tools.write_file('c18h.skool', M.render_skool(ents, start=False), d)
         outdir = os.path.join(d, 'html')
@@ -645,7 +665,7 @@ def run_doc(seam, key, cfg, seed, stats=None):
             for e in ents:
                 p = os.path.join(outdir, 'c18h', 'asm', '{}.html'.format(e.addr))
                 pages[e.addr] = tools.read_file(p, binary=False) if os.path.exists(p) else None
-            probs = check_html(ents, pages)
+            probs = check_html(ents, pages, stats.counters if stats is not None else None)
         shutil.rmtree(outdir, ignore_errors=True)
     return ents, probs
 
@@ -724,6 +744,7 @@ def _tags(seam, cfg, e, p):
 def _shard(shard, nshards, tier, seed):
     stats = core.Stats(PROPERTY)
     work = work_list(tier, seed)
+    nsolo = {}
     for wi, (seam, key, cfg) in core.shard_iter(work, shard, nshards):
         ents, probs = run_doc(seam, key, cfg, seed, stats)
         stats.transitions += 1
@@ -738,6 +759,22 @@ def _shard(shard, nshards, tier, seed):
                 stats.nontriv((seam, ctag, repr(sorted(e.tag.items()))))
             for g in e.groups:
                 stats.counters['group_size_%d' % len(g.oplens)] += 1
+                words = [t for t in g.comment if isinstance(t, str)]
+                if seam in ('asm', 'ctl'):
+                    # input-side guards (independent of what the tool does)
+                    fixed = (cfg.get('indent', 2) + 3 + max([cfg.get('instruction_width', 23)] + list(g.oplens))) if seam == 'asm' else \
+                        (10 + max([cfg.get('instruction_width', 13)] + [ol for g2 in e.groups for ol in g2.oplens]))
+                    if any(len(w) > cfg['line_width'] - fixed for w in words):
+                        stats.counters[seam + '_word_longer_than_comment_field'] += 1
+                    if seam == 'asm' and max(g.oplens) + cfg.get('indent', 2) > cfg['line_width']:
+                        stats.counters['asm_operation_wider_than_line'] += 1
+                    if len(g.oplens) > 1 and words and words[-1].endswith('}'):
+                        stats.counters[seam + '_comment_ends_with_brace_in_group'] += 1
+                else:
+                    if len(g.oplens) > 1:
+                        stats.counters['html_group_gt1'] += 1
+                    if any(M.is_block(t) for t in g.comment):
+                        stats.counters['html_block_in_comment'] += 1
                 if len(g.oplens) > 1 and any('{' in t or '}' in t for t in g.comment if isinstance(t, str)):
                     stats.counters['group_comment_with_braces'] += 1
         groups = {}
@@ -745,6 +782,10 @@ def _shard(shard, nshards, tier, seed):
             groups.setdefault((-1 if p.entry is None else p.entry, _pos_name(p.pos), p.kind), p)
         solo_cache = {}
         for (ei, pname, kind), p in sorted(groups.items()):
+            if ei >= 0 and ei not in solo_cache:
+                nsolo[pname, kind] = nsolo.get((pname, kind), 0) + 1
+                if nsolo[pname, kind] > SOLO_CAP:
+                    solo_cache[ei] = []         # keep the packed document as the reproduction
             e = ents[ei] if ei >= 0 else None
             case = {'seam': seam, 'key': key, 'cfg': cfg, 'seed': seed}
             where = 'doc'
@@ -807,6 +848,8 @@ def run(tier, seed):
         ],
         required_guards=['runs_asm', 'runs_ctl', 'runs_html', 'group_size_1', 'group_size_2', 'group_size_3', 'group_size_4',
                          'group_comment_with_braces', 'brace_text_not_expressible', 'fam_W_asm', 'fam_W_ctl', 'fam_L_asm', 'fam_L_ctl',
+                         'asm_word_longer_than_comment_field', 'ctl_word_longer_than_comment_field', 'asm_operation_wider_than_line',
+                         'asm_comment_ends_with_brace_in_group', 'ctl_comment_ends_with_brace_in_group', 'html_group_gt1', 'html_block_in_comment',
                          'fam_B_asm', 'fam_B_ctl', 'fam_B_html', 'fam_K_asm', 'fam_K_html', 'fam_N_asm', 'fam_H_html'],
     )
     return stats, meta
